@@ -1,10 +1,11 @@
 """C05 — only authentic, acceptable requests are forwarded or answered."""
 from props import _worldprop as WP
 ID = "C05"
-LEAN_TARGETS = ["Rsp.Props.Parse", "Rsp.Props.C05"]
+LEAN_TARGETS = ["Rsp.Props.Parse", "Rsp.Props.C05", "Rsp.Tie.C05"]
 THEOREMS = ["Rsp.Props.Parse.parse_meets_spec", "Rsp.Props.Parse.parse_some_wellformed", "Rsp.Props.Parse.parse_macs_valid",
             "Rsp.Props.C05.radsrv_acts_only_on_acceptable", "Rsp.Props.C05.radsrv_ret0_iff_invalid", "Rsp.Props.C05.radsrv_ret0_spec", "Rsp.Props.C05.core_ignores_other_codes",
-            "Rsp.Props.C05.core_naks_disconnect_and_coa", "Rsp.Props.C05.error_cause_406"]
+            "Rsp.Props.C05.core_naks_disconnect_and_coa", "Rsp.Props.C05.error_cause_406",
+            "Rsp.Tie.C05.tlsserverrd_calls_tie", "Rsp.Tie.C05.refused_request_closes_both_directions"]
 RULE = ("histories against the real getmainconfig+radsrv with fake transports: authentic requests of every code, 0-3 Message-Authenticators (valid, invalid, wrong length), "
         "Proxy-State, EAP layouts around the length boundary, all three option settings x four transports, single-bit / truncation / length-field mutations, wrong secret; "
         "plus the parser called directly. non-trivial = history in which something was forwarded, answered or a mutated request was presented")
